@@ -11,7 +11,8 @@ SHARD = 40
 RULE = ("sequences of 1-7 inputs mixing acceptable items (each with a unique text), blank parser inputs and texts "
         "without an MRS, sent to ACEParser, ACEGenerator or ACETransferer driving a scripted stand-in processor "
         "(harness/fake/fake_ace.py) in both output protocols (tsdb-stdout and default); for every request the "
-        "stand-in answers, exits before answering, exits in the middle of the answer (cut at 10-95%) or exits "
+        "stand-in answers, exits before answering, exits in the middle of the answer (cut at 10-95% or just "
+        "before one of its last parentheses) or exits "
         "right after answering, immediately or after a delay, while the client pauses or not between "
         "interactions, so that exit detection races both ways. Compared: per interaction the input recorded, "
         "skipped or not, the lines returned by the line reader (captured by wrapping _result_lines in the "
@@ -41,7 +42,9 @@ LEVEL_TEXT = ("Proof (Coq, no axioms) about the model of ACEProcess.interact: fo
               "interactions; unacceptable inputs are skipped without touching the processor; after an exit the next "
               "served request runs under a new run id; close() returns 0 or the exit status; decoding a printed "
               "tsdb-stdout answer line (nested lists, dotted pairs, integers, symbols, quoted strings with any "
-              "characters) returns exactly the printed pairs. The model is tied to "
+              "characters) returns exactly the printed pairs, and decoding any truncation of a printed line "
+              "never raises (C19_truncated_answer_never_raises; false of the code before the repair of F30). "
+              "The model is tied to "
               "delphin/ace.py by kernel-checked correspondence against a scripted stand-in processor under both "
               "race outcomes; result extraction, absence of exceptions and hangs, and run bookkeeping are checked "
               "on the real classes by the oracle.")
@@ -139,13 +142,18 @@ def _gen_sexpr(rng, tier):
         line = sep.join(pairs)
         if rng.random() < 0.15:
             line = " " + line + " "
-        cases.append({"k": "sexpr", "line": line, "wf_prefix": True})
+        # the no-exception oracle applies to lines a processor prints: strings quoted, symbols
+        # without backslash escapes (an escaped symbol cut after its backslash is not decodable
+        # and is outside the printed class of the theorem; it stays in the correspondence)
+        import re as _re
+        wfp = "\\" not in _re.sub(r'"(?:[^"\\]|\\.)*"', "", line)
+        cases.append({"k": "sexpr", "line": line, "wf_prefix": wfp})
         for _ in range(3):
-            cases.append({"k": "sexpr", "line": line[:rng.randrange(0, len(line) + 1)], "wf_prefix": True})
+            cases.append({"k": "sexpr", "line": line[:rng.randrange(0, len(line) + 1)], "wf_prefix": wfp})
         # cuts on structural boundaries: right after a closing parenthesis
         ends = [j + 1 for j, ch in enumerate(line) if ch == ")"]
         for j in rng.sample(ends, min(3, len(ends))):
-            cases.append({"k": "sexpr", "line": line[:j], "wf_prefix": True})
+            cases.append({"k": "sexpr", "line": line[:j], "wf_prefix": wfp})
         if rng.random() < 0.3:
             j = rng.randrange(0, len(line) + 1)
             cases.append({"k": "sexpr", "line": line[:j] + rng.choice(["[", ";", "\\", "{", ")", "(", '"', " . "]) + line[j:]})
